@@ -201,6 +201,7 @@ func checkC12(c *Ctx) {
 			fmt.Sprintf("%s is emitted under [%s]: nothing in its guards says the two specs differ here, so comparing a spec with itself can report it", bs.Code, trigStr(trigs)))
 	}
 	checkTwinLookups(c, r)
+	checkPairwise(c, "C12.R3.pairwise", r)
 }
 
 // checkConstruction: the pointer fields assumed non-nil by construction are only ever set
@@ -878,5 +879,80 @@ func checkLoopAdvance(c *Ctx, rule string, pk *packages.Package) {
 	}
 	if n == 0 {
 		c.Ok(rule, "diff › no conditional loop without post statement", "", "none found")
+	}
+}
+
+// checkPairwise: the elements of twin collections are compared pairwise — same key, same
+// position. A loop over a collection of one spec nested in a loop over its twin of the other
+// spec, whose body compares the two elements without relating their keys, compares everything
+// with everything: a spec with two different elements then differs from itself.
+func checkPairwise(c *Ctx, rule string, r *goan.Rel) {
+	c.Rule(rule, "no comparison of an element of spec 1 with an element of spec 2 inside two nested loops over the twin collections, unless the body relates their keys", 0)
+	pk := r.Pkg
+	info := pk.TypesInfo
+	n := 0
+	for _, fd := range load.AllFuncs(pk) {
+		if fd.Body == nil {
+			continue
+		}
+		fd := fd
+		ast.Inspect(fd.Body, func(nd ast.Node) bool {
+			outer, ok := nd.(*ast.RangeStmt)
+			if !ok {
+				return true
+			}
+			so := r.SideOf(outer.X)
+			if so != goan.S1 && so != goan.S2 {
+				return true
+			}
+			ast.Inspect(outer.Body, func(m ast.Node) bool {
+				inner, ok := m.(*ast.RangeStmt)
+				if !ok {
+					return true
+				}
+				si := r.SideOf(inner.X)
+				if (si != goan.S1 && si != goan.S2) || si == so || r.TwinKeyResolved(outer.X, fd.Body) != r.TwinKeyResolved(inner.X, fd.Body) {
+					return true
+				}
+				// the two iteration variables
+				vars := func(rs *ast.RangeStmt) []types.Object {
+					var out []types.Object
+					for _, e := range []ast.Expr{rs.Key, rs.Value} {
+						if id, ok := e.(*ast.Ident); ok && id.Name != "_" {
+							out = append(out, info.Defs[id])
+						}
+					}
+					return out
+				}
+				ov, iv := vars(outer), vars(inner)
+				related := false
+				ast.Inspect(inner.Body, func(k ast.Node) bool {
+					be, ok := k.(*ast.BinaryExpr)
+					if !ok || (be.Op != token.EQL && be.Op != token.NEQ) {
+						return true
+					}
+					mentions := func(e ast.Expr, objs []types.Object) bool {
+						for _, o := range objs {
+							if goan.Mentions(info, e, o) {
+								return true
+							}
+						}
+						return false
+					}
+					if (mentions(be.X, ov) && mentions(be.Y, iv)) || (mentions(be.X, iv) && mentions(be.Y, ov)) {
+						related = true
+					}
+					return true
+				})
+				n++
+				c.Check(related, rule, fmt.Sprintf("diff.%s › range %s × range %s", load.FuncName(fd), goan.ExprString(outer.X), goan.ExprString(inner.X)), c.posOf(pk, inner.Pos()), "the body relates the two keys",
+					fmt.Sprintf("%s compares every element of %s with every element of %s: two different elements of one spec are reported as differences of the spec with itself", load.FuncName(fd), goan.ExprString(outer.X), goan.ExprString(inner.X)))
+				return true
+			})
+			return true
+		})
+	}
+	if n == 0 {
+		c.Ok(rule, "diff › no nested loops over twin collections", "", "none found")
 	}
 }
